@@ -27,6 +27,7 @@ MaxInt == Pow2(W - 1) - 1
 MaxDiv10 == MaxInt \div 10
 SafeDigits == SafeDigitsOf(W)
 MaxHexChars == MaxHexCharsOf(W)
+MaxD == MaxIntDigits(W)            \* digits of MaxInt, by digit arithmetic (Part II)
 \* two's-complement reduction of a mathematical integer to a W-bit signed int
 Wrap(x) == ((x + Pow2(W - 1)) % Pow2(W)) - Pow2(W - 1)
 
@@ -101,18 +102,18 @@ ParseUintExact == st = "done" =>
 
 \* parseUintBuf agrees with the digit-string reference in every field
 BufMatchesRef == st = "done" =>
-  LET r == RefParseBuf(buf, W) IN
+  LET r == RefParseBuf(buf, MaxD) IN
     /\ (res.err = "nil") = r.ok /\ res.err = r.err /\ res.n = r.n
     /\ r.ok => ToDigits(res.v) = r.val
 
 \* Part II's "fits" equals the integer comparison (validates the digit-string oracle)
-DigitRefAgrees == AllDigits(buf) => (FitsW(buf, W) <=> Value(buf) <= MaxInt)
+DigitRefAgrees == AllDigits(buf) => (FitsD(buf, MaxD) <=> Value(buf) <= MaxInt)
 
 Inv == TypeOK /\ LoopInv /\ ParseUintExact /\ BufMatchesRef /\ DigitRefAgrees
 
 \* ---- arithmetic lemmas over ALL accumulator values ------------------------
 ConstFacts ==
-  /\ Value(MaxIntDigits(W)) = MaxInt /\ Value(MaxDiv10Digits(W)) = MaxDiv10
+  /\ Value(MaxD) = MaxInt /\ Value(MaxDiv10Digits(W)) = MaxDiv10
   /\ 10 ^ SafeDigits - 1 <= MaxInt /\ 10 ^ (SafeDigits + 1) - 1 > MaxInt
 GuardLemma == \A a \in 0..MaxInt : \A d \in 0..9 : Guard(a, d) <=> 10 * a + d > MaxInt
 \* below SafeDigits digits no test is needed
@@ -143,7 +144,7 @@ WriteHexRev(n) == IF n < 16 THEN <<n>> ELSE <<n % 16>> \o WriteHexRev(n \div 16)
 WriteHex(n) == Reverse(WriteHexRev(n))
 
 HexReadLemma == \A s \in SeqsUpTo(HSym, MaxHexChars + 2) :
-  LET r == ReadHex(s) ref == RefReadHex(s, W) IN
+  LET r == ReadHex(s) ref == RefReadHex(s, MaxHexChars) IN
     /\ r.ok = ref.ok /\ r.n = ref.n
     /\ r.ok => r.v = HexValue(SubSeq(s, 1, r.n)) /\ r.v >= 0 /\ r.v <= MaxInt
               /\ WriteHex(r.v) = ref.val
